@@ -308,7 +308,7 @@ def run(ctx):
     if getattr(ctx, "replay", None) and isinstance(ctx.replay.get("replay", {}).get("case"), dict):
         cases = [ctx.replay["replay"]["case"]]
     else:
-        n = 700 if ctx.tier == "quick" else 6000
+        n = 500 if ctx.tier == "quick" else 6000
         cases = [dict(c) for c in CORPUS]
         while len(cases) < n:
             cases.append(gen_case(rng, ctx.tier))
@@ -324,8 +324,16 @@ def run(ctx):
         terms.append(f"({g_case(c, od, o)}, {g_exp(c, od, o, notes)})")
         notes_all.append(notes)
     hdr = "From PLV Require Import Disc.GroupingModel."
-    bad = ctx.coq_eval_cases("cases", hdr, terms, "check_case")
-    badv = set(ctx.coq_eval_cases("valid", hdr, terms, "check_valid"))
+    # one pass: model = implementation AND the verified checkers accept the implementation's output;
+    # the (few) failing cases are re-evaluated to tell the two apart
+    both = ctx.coq_eval_cases("cases", hdr, terms, "check_both", chunk=90)
+    bad, badv = [], set()
+    if both:
+        sub = ctx.coq_eval_cases("recheck", hdr, [terms[i] for i in both], "check_case", chunk=90)
+        bad = [both[k] for k in sub]
+        subv = ctx.coq_eval_cases("revalid", hdr, [terms[i] for i in both], "check_valid", chunk=90)
+        badv = set(both[k] for k in subv)
+        ctx.coverage["correspondence_cases"] = len(terms)
 
     stats = Counter()
     hist = Counter()
